@@ -40,7 +40,7 @@ ASSUMPTIONS = [
 PEPS = ["TA", "TB", "DA", "DB"]
 LEVEL_FILES = {"Peptide": "peptides", "ModifiedPeptide": "modifiedpeptides", "Precursor": "precursors",
                "PeptideGroup": "peptidegroups"}
-DEFAULT = dict(dedup=True, rollup=True, decoys=True, ncoll=1, prefixes=False, fmt="pin", extras=False, order="desc", chunk=None)
+DEFAULT = dict(dedup=True, rollup=True, decoys=True, ncoll=1, prefixes=False, fmt="pin", extras=False, order="desc", chunk=None, shift=None)
 DEVIATIONS = [("dedup", False), ("rollup", False), ("decoys", False), ("ncoll", 2), ("ncoll", 3), ("prefixes", True),
               ("fmt", "parquet"), ("extras", True), ("extras", "same"), ("order", "asc"), ("order", "rot"),
               ("chunk", 2), ("chunk", 3)]
@@ -66,7 +66,7 @@ def canonical_cores(n):
     return out
 
 
-def build_rows(core, coll, tie=None):
+def build_rows(core, coll, tie=None, shift=None):
     rows = []
     score = 100.3712345678  # 13 significant digits: a score column narrowed to float32 would be visible
     for j, (sp, pep) in enumerate(core):
@@ -83,6 +83,11 @@ def build_rows(core, coll, tie=None):
         rows.append(dict(id=f"c{coll}b{k}", scan=11 + k, label=t, peptide=pep, score=score, mod=pep + "[z]",
                          group="G" + pep, mod_same=pep, group_same=pep))
         score = round(score - 1.0700000321, 10)
+    if shift == "zero":
+        # the first ballast row scores exactly 0.0, the core is positive, the rest of the ballast negative
+        z = rows[len(core)]["score"]
+        for r in rows:
+            r["score"] = round(r["score"] - z, 10)
     for r in rows:
         r["spectrum"] = r["scan"]
         r["prec"] = r["mod"] + "/" + str(2 + r["scan"] % 2)
@@ -241,7 +246,7 @@ def run_case(case, acc, with_rollup_tool=False):
         colls, dsets, scores = [], [], []
         for c in range(cfg["ncoll"]):
             ccore = core[c:] + core[:c]
-            rows = build_rows(ccore, c, tie)
+            rows = build_rows(ccore, c, tie, cfg.get("shift"))
             df, s = to_frame(rows, cfg["extras"], cfg["order"])
             dsets.append(make_dataset(df, work / f"coll{c}{ext}", features=["feat"]))
             scores.append(s)
@@ -373,13 +378,15 @@ def make_cases(ctx):
         tie_n = [2, 3]
     else:
         plan = [(1, 3), (2, 3), (3, 2), (4, 1), (5, 0)]
-        extra4 = [{"dedup": False}, {"chunk": 2}, {"chunk": 3, "extras": "same", "fmt": "parquet"}]
+        extra4 = [{"dedup": False}, {"chunk": 2}, {"chunk": 3, "extras": "same", "fmt": "parquet"}, {"chunk": 2, "shift": "zero"}]
         tie_n = [2, 3, 4]
     nmax = plan[-1][0]
     for n, maxdev in plan:
         cfgs = configs(maxdev)
         if maxdev == 0:
             cfgs = [{}] + extra4
+        elif maxdev == 1:  # the chunked merge with an exact zero among negative scores needs two deviations
+            cfgs = cfgs + [{"chunk": 2, "shift": "zero"}]
         for core in canonical_cores(n):
             for cfg in cfgs:
                 cases.append({"core": [list(x) for x in core], "config": cfg})
